@@ -377,6 +377,13 @@ func (s *session) dumpOf(t *mpt.Trie, on string) map[string]any {
 		v, err := t.Get(k)
 		gets = append(gets, map[string]any{"k": nibbles(k), "found": err == nil, "v": hx(v)})
 	}
+	if on == "copy" { // the same reads through the storage.Store facade used by historic invocations
+		ts := mpt.NewTrieStore(root, s.readMode(), s.store)
+		for _, k := range s.universe {
+			v, err := ts.Get(append([]byte{byte(storage.STStorage)}, k...))
+			gets = append(gets, map[string]any{"k": nibbles(k), "found": err == nil, "v": hx(v)})
+		}
+	}
 	nodes := map[[32]byte][]byte{}
 	proofs := []any{}
 	for _, ks := range sortedKeys(s.content) {
